@@ -209,7 +209,8 @@ Proof.
   - unfold where_op. apply bind_np; [apply eval_bool_np | discriminate].
   - unfold let_op. apply bind_np; [apply eval_no_panic | discriminate].
   - unfold timeslice_op. apply bind_np; [apply eval_no_panic|]. intros v.
-    destruct v; try discriminate. destruct (_ || _); discriminate.
+    destruct v; try discriminate. destruct (_ <=? _)%Z; [discriminate|].
+    unfold mk_date. destruct (date_ok _); cbn [bind]; discriminate.
 Qed.
 
 Theorem op_step_no_panic : forall o r, snd (op_step o r) <> Panic.
